@@ -337,6 +337,12 @@ func (gridSim) Run(e *Env, ci interface{}) {
 		silent("the text output could not have been opened (no-such-dir/out.txt)")
 		return
 	}
+	if cm.TextOut == "devfull" {
+		// every command of the grid prints at least one line (a now:/time: line
+		// or the header); on /dev/full that output cannot have been written
+		silent("its text output went to /dev/full, where nothing can be written")
+		return
+	}
 	out := res.out
 	wantOut := cm.TextOut == "" || cm.TextOut == "file"
 	if c.Kind == "generate" && cm.TextOut == "" {
